@@ -12,12 +12,10 @@
     (no division by an unset block time), 88b6cbe (Validate rejects negative
     durations), bf876d4 (estimate clamped between old tail and head), efa8b16 and
     85f942c (downward walk, also from one above the store's head), 80904e6
-    (syncStore.Append accepts the current head again). For this code "never
-    panics", "never wraps" and "keeps the window" hold at FULL strength; "still one
-    gap-free chain" and "never wedges" hold except in ONE region that stays an open
-    finding: F9a (new tail above the store's head + 1: orphan, refused DeleteRange,
-    Start fails, permanently once the local head is expired). The region is
-    characterised exactly and witnessed by [_refuted] theorems. Statements only;
+    (syncStore.Append accepts the current head again), 6240466 (the window tail is
+    looked for at most one above the store's head) and 970b299 (a configured tail
+    above everything stored restarts the store from it). For this code EVERY clause
+    of the property holds at FULL strength; no finding is open. Statements only;
     proofs are in Proofs/TailP.v.
 
     Notation: [start_run p times now st] is Start() of a freshly configured
@@ -48,25 +46,25 @@ Theorem C16_estimate_in_chain : forall tp b h, 1 <= h ->
   exists x, estimate_tail tp b h = TVal x /\ 1 <= x <= h.
 Proof. exact estimate_in_chain. Qed.
 
-(** findTailHeight returns a height between the old tail and the head, whatever
+(** findTailHeight returns a height between the old tail and the head, at most one
+    above the store's head, whatever
     the window, the block time and the header times are (the store answers the
     lookups between its tail and its head; the scans cannot run out of fuel) *)
 Theorem C16_no_wrap : forall w b oldH oldT headH headT storeH time_at,
-  headH < two64 -> storeH <= headH ->
+  headH < two64 -> storeH + 1 < two64 -> oldH <= storeH <= headH ->
   (forall h, oldH <= h <= storeH -> exists t, time_at h = Some t) ->
   exists x, find_tail w b oldH oldT headH headT storeH time_at = TVal x /\
-            oldH <= x /\ x <= N.max oldH headH.
+            oldH <= x <= headH /\ x <= storeH + 1.
 Proof. exact find_tail_in_range. Qed.
 
 (** at the level of Start, window mode: every height asked from the network is a
-    height of the chain, and Start fails only because the network's head is itself
-    expired or because the new tail lies above the store's head + 1 (WDelete, F9a) *)
+    height of the chain, and Start fails only when the network's head is itself expired *)
 Theorem C16_no_wrap_start : forall p times now st,
   let n := net_head times in
   wf st n -> n + 2 < two64 -> 1 <= n ->
   p_hash p = HNone -> p_from p = 0 ->
   let '(o, w) := start_run p times now st in
-  (w = WDone \/ w = WNoCall \/ w = WInvalid \/ w = WInitExpired \/ w = WDelete) /\
+  (w = WDone \/ w = WNoCall \/ w = WInvalid \/ w = WInitExpired) /\
   Forall (fun h => 1 <= h <= n) (o_req o) /\
   (o_out o = OOk <-> (w = WDone \/ w = WNoCall)).
 Proof. exact start_window_any. Qed.
@@ -75,13 +73,12 @@ Proof. exact start_window_any. Qed.
     header times only have to be non-decreasing (spacing by at most blockTime
     implies it); any block time, any trusting period, "far" and "close" case alike *)
 
-(** function level: a new tail at most one above the store's head (anything higher
-    cannot be moved to) has only headers older than the window below it *)
+(** function level: the new tail has only headers older than the window below it *)
 Theorem C16_keeps_window_find_tail : forall (t : N -> Z) w b oldH oldT headH headT storeH time_at x,
-  oldH <= storeH ->
+  oldH <= storeH -> storeH + 1 < two64 ->
   (forall h, oldH <= h < storeH -> (0 <= t (h + 1)%N - t h)%Z) ->
   (forall h, oldH <= h <= storeH -> time_at h = Some (t h)) ->
-  find_tail w b oldH oldT headH headT storeH time_at = TVal x -> x <= storeH + 1 ->
+  find_tail w b oldH oldT headH headT storeH time_at = TVal x ->
   forall h, oldH <= h < x -> (t h < headT + wrapi64 (- w))%Z.
 Proof. exact find_tail_keeps_window. Qed.
 
@@ -97,35 +94,28 @@ Theorem C16_keeps_window : forall p times now st,
   (t h < t n - p_window p)%Z.
 Proof. exact start_keeps_window. Qed.
 
-(** ** 4. Still one gap-free chain — FULL for every run except the reason WDelete,
-    which is characterised exactly (all parameters, chains, clocks) *)
+(** ** 4. Still one gap-free chain — FULL: every parameter set, chain, clock,
+    every outcome of Start *)
 Theorem C16_tail_within_chain : forall p times now st,
   let n := net_head times in
   wf st n -> n + 2 < two64 ->
   let '(o, w) := start_run p times now st in
-  (w <> WDelete -> wf (o_store o) n /\ (s_tail st <> 0 -> s_tail (o_store o) <> 0)) /\
-  (w = WDelete -> o_out o = OErr /\
-     exists t h x, o_store o = Store t h [x] /\ 1 <= t <= h /\ h + 1 < x <= n).
+  wf (o_store o) n /\ (s_tail st <> 0 -> s_tail (o_store o) <> 0) /\ w <> WDelete.
 Proof. exact start_run_store. Qed.
 
-(** ** 5. Never wedges — PARTIAL: under the property's hypothesis (spacing <=
-    blockTime), when the "far" case is not taken and the store's head is younger
-    than the pruning window, the new tail is in the store and Start cannot fail
-    with WDelete. The full statement is refuted below (F9a). *)
-Theorem C16_no_wedge_partial : forall p times now st,
-  let n := net_head times in
-  let t := tmf times in
-  wf st n -> n + 2 < two64 -> 1 <= n ->
-  p_hash p = HNone -> p_from p = 0 ->
-  (0 < p_block p)%Z -> (0 < p_window p)%Z -> sane (p_window p) ->
-  sane (t (s_tail st)) -> sane (t n) ->
-  (forall h, s_tail st <= h < n -> (0 <= t (h + 1)%N - t h <= p_block p)%Z) ->
-  s_tail st <> 0 -> (t n - p_window p - t (s_tail st) < p_window p)%Z ->
-  (t n - p_window p < t (s_head st))%Z ->
-  snd (start_run p times now st) <> WDelete.
-Proof. exact start_no_wedge_partial. Qed.
+(** ** 5. Never wedges — FULL: Start fails only for reasons the environment
+    explains: the only head the network offers is itself expired, or the configured
+    SyncFromHash / SyncFromHeight names a header the network does not have *)
+Theorem C16_never_wedges : forall p times now st,
+  wf st (net_head times) -> net_head times + 2 < two64 -> 1 <= net_head times ->
+  let '(o, w) := start_run p times now st in
+  o_out o = OErr ->
+  (w = WInitExpired /\ expired p now (tm0 times (net_head times)) = true) \/
+  (w = WFetch /\ ((exists k, p_hash p = HAt k /\ in_chain times k = false) \/
+                  (p_hash p = HNone /\ net_head times < p_from p))).
+Proof. exact start_err_only_env. Qed.
 
-(** non-vacuity: runs that meet the hypotheses above and really move the tail:
+(** non-vacuity: runs that meet the hypotheses of the theorems and really move the tail:
     the close case, and the far case with fast blocks (tail found by the downward walk) *)
 Example C16_positive_theorems_nonvacuous :
   params_valid wok_params = true /\
@@ -142,6 +132,29 @@ Example C16_far_case_nonvacuous :
   (tmf w9c_times 40 < tmf w9c_times 61 - 100)%Z /\ (tmf w9c_times 41 >= tmf w9c_times 61 - 100)%Z.
 Proof. exact wok_far_run. Qed.
 
+(** the former finding F9a: a store far behind the chain, also after the local
+    head expired, and a configured tail above everything stored *)
+Example C16_lagging_store :
+  params_valid w9a_params = true /\
+  start_run w9a_params w9a_times 2001 (Store 1 50 []) = (Obs OOk [51] (Store 51 200 []), WDone).
+Proof. exact w9a_fixed. Qed.
+
+Example C16_expired_restart :
+  params_valid w9w_params = true /\
+  start_run w9w_params w9w_times w9w_now (Store 1 50 []) = (Obs OOk [51] (Store 51 200 []), WDone).
+Proof. exact w9w_fixed. Qed.
+
+Example C16_restart_from_configured_tail :
+  start_run (Params (337 * w_hour)%Z 80 HNone w_big w_sec 1) (mk_times 0%Z (repeat w_sec 99)) (99 * w_sec + 1)%Z
+            (Store 1 50 []) = (Obs OOk [80] (Store 80 100 []), WDone).
+Proof. exact w9a_restart. Qed.
+
+(** the lagging store with fast blocks keeps the window (store [15..23], head 29) *)
+Example C16_lagging_store_keeps_window :
+  start_run (Params 19 0 HNone w_big 10 1) wlag_times 75 (Store 15 23 []) = (Obs OOk [] (Store 23 29 []), WDone) /\
+  (tmf wlag_times 22 < tmf wlag_times 29 - 19)%Z /\ (tmf wlag_times 23 >= tmf wlag_times 29 - 19)%Z.
+Proof. exact wlag_keeps_window. Qed.
+
 (** the tail can be moved down from a single-header store (former finding F9f) *)
 Example C16_move_down_from_single_header :
   params_valid w9f_params = true /\
@@ -149,40 +162,19 @@ Example C16_move_down_from_single_header :
     (Obs OOk [] (Store 61 70 []), WDone).
 Proof. exact w9f_fixed. Qed.
 
-(** ** 6. The whole property, outside the region of the open finding
+(** ** 6. The whole property
 
     [ok16] (Oracle/C16.v) is the decidable re-statement of EVERY clause of C16 on an
     observation: parameters rejected iff invalid, no panic, no failure of Start that
     the environment does not explain, in window mode only heights of the chain are
     requested, the store afterwards is one gap-free chain with 1 <= Tail <= Head and
     nothing outside of it, and under the spacing hypothesis no removed header is
-    younger than the pruning window. [region16] is 2 for WDelete (F9a), 0
-    otherwise. For ALL parameters, chains, clocks and every store that is one
-    gap-free chain: a run outside that region satisfies the whole property. *)
-Theorem C16_full_outside_known_regions : forall p times now st,
+    younger than the pruning window. For ALL parameters, chains, clocks and every
+    store that is one gap-free chain, the run of the model satisfies it. *)
+Theorem C16_full : forall p times now st,
   wf st (net_head times) -> net_head times + 2 < two64 -> 1 <= net_head times -> sane (p_window p) ->
-  let c := Case16 p times now st (start_step p times now st) in
-  region16 c = 0 -> ok16 c = true.
+  ok16 (Case16 p times now st (start_step p times now st)) = true.
 Proof. exact model16_ok. Qed.
-
-(** ** 7. What is still false of the current code: witnesses
-    (each is replayed on the real code by harness/c16 on every run) *)
-
-(** F9a "still one gap-free chain": the new tail above the store's head + 1 is
-    force-appended, DeleteRange refuses, Start fails and an orphan stays behind *)
-Theorem C16_tail_within_chain_refuted : exists p times now st,
-  params_valid p = true /\ wf st (net_head times) /\
-  o_out (start_step p times now st) = OErr /\ s_extra (o_store (start_step p times now st)) <> [].
-Proof. exact tail_within_chain_refuted. Qed.
-
-(** F9a "never wedges": once the local head is expired, every further Start
-    fails in the same way although the network head is not expired *)
-Theorem C16_never_wedges_refuted : exists p times now st,
-  params_valid p = true /\ wf st (net_head times) /\
-  expired p now (tmf times (net_head times)) = false /\
-  forall k, o_out (start_step p times now
-                     (Nat.iter k (fun s => o_store (start_step p times now s)) st)) = OErr.
-Proof. exact never_wedges_refuted. Qed.
 
 Print Assumptions C16_no_panic.
 Print Assumptions C16_estimate_no_panic.
@@ -193,7 +185,5 @@ Print Assumptions C16_no_wrap_start.
 Print Assumptions C16_keeps_window_find_tail.
 Print Assumptions C16_keeps_window.
 Print Assumptions C16_tail_within_chain.
-Print Assumptions C16_no_wedge_partial.
-Print Assumptions C16_full_outside_known_regions.
-Print Assumptions C16_tail_within_chain_refuted.
-Print Assumptions C16_never_wedges_refuted.
+Print Assumptions C16_never_wedges.
+Print Assumptions C16_full.
